@@ -245,10 +245,13 @@ class VQueue:
 
     _count = 0
 
+    registry: list = []   # every virtual queue created since the last reset_registry() (harnesses look at leftovers through it)
+
     def __init__(self, maxsize=0):  # noqa: ARG002
         self.items = collections.deque()
         VQueue._count += 1
         self.qid = VQueue._count
+        VQueue.registry.append(self)
 
     def put(self, item, block=True, timeout=None):  # noqa: ARG002
         c = _ctl
@@ -287,6 +290,16 @@ class VQueue:
 
     def qsize(self):
         return len(self.items)
+
+
+def reset_registry():
+    VQueue.registry = []
+
+
+def live_threads():
+    """Names of controlled threads (other than main) that have started and not finished, in the current execution."""
+    c = _ctl
+    return [t.name for t in c.threads[1:] if t.started and not t.finished] if c is not None else []
 
 
 class VThread:
